@@ -538,6 +538,11 @@ pub fn rooted_tys(depth: u32) -> Vec<(String, BoxedStrategy<Ty>)> {
     }
     out.push(("[i8|bool|();N]".into(), (select(vec![Ty::I8, Ty::Bool, Ty::Unit]), select(ARRAY_LENS.to_vec())).prop_map(|(t, n)| Ty::Array(arc(t), n)).boxed()));
     out.push(("LinkedList".into(), prop_oneof![inner.clone(), key.clone()].prop_map(|t| Ty::LinkedList(arc(t))).boxed()));
+    // containers whose element (or entry) type has no size at all
+    out.push((
+        "containers of zero-sized elements".into(),
+        select(vec![Ty::HashSet(arc(Ty::Unit)), Ty::BTreeSet(arc(Ty::Unit)), Ty::LinkedList(arc(Ty::Unit)), Ty::HashMap(arc(Ty::Unit), arc(Ty::Unit)), Ty::BTreeMap(arc(Ty::Unit), arc(Ty::Unit)), Ty::HashSet(arc(Ty::Phantom))]).boxed(),
+    ));
     out.push(("HashSet".into(), key.clone().prop_map(|t| Ty::HashSet(arc(t))).boxed()));
     out.push(("BTreeSet".into(), key.clone().prop_map(|t| Ty::BTreeSet(arc(t))).boxed()));
     out.push(("HashMap".into(), (key.clone(), inner.clone()).prop_map(|(k, v)| Ty::HashMap(arc(k), arc(v))).boxed()));
